@@ -8,11 +8,11 @@ NATIVE_SRCS = SRCS + ['util/StringTokenizer.cpp', 'util/Directory.cpp', 'util/Fi
 COMMON = dict(srcs=SRCS, native_srcs=NATIVE_SRCS, native_defs={'VERIF_HAVE_SYSLOG': 1, 'VERIF_HAVE_SETUPSYSTEM': 1}, models=('models/base.def', 'models/message.def', 'models/qfilter.def'), preludes=('prelude_base.h',),
               mode='func', object_bits=12, ir2c_flags=['--split-struct-all', 'struct.muscle::String::LongStringData'], extra_clang=['-DDISABLE_OBJECT_POOLING', '-DMUSCLE_AVOID_TAGGED_POINTERS', '-fno-inline'])
 
-KINDS = {0: 'what', 1: 'exists', 2: 'int8', 3: 'int16', 4: 'int32', 5: 'int64', 6: 'bool', 7: 'min', 8: 'max', 9: 'and', 10: 'or', 11: 'nand', 12: 'nor', 13: 'xor', 14: 'message', 15: 'badarchive'}
+KINDS = {0: 'what', 1: 'exists', 2: 'int8', 3: 'int16', 4: 'int32', 5: 'int64', 6: 'bool', 7: 'min', 8: 'max', 9: 'and', 10: 'or', 11: 'nand', 12: 'nor', 13: 'xor', 14: 'message', 15: 'badarchive', 16: 'float', 17: 'double'}
 
 
 def job(tier, kind, n=0, arch=0, other=0, p4=0, p5=0):
-    name = 'qf %s n=%d%s%s%s' % (KINDS[kind], n, (' archived/%x' % p5) if arch else (' p=%x' % p5) if kind in (1, 14) else '', ' othertype' if other else '', (' v=%d' % p4) if kind >= 7 else '') + ((' w=%d' % p5) if kind == 15 else '')
+    name = 'qf %s n=%d%s%s%s' % (KINDS[kind], n, (' archived/%x' % p5) if arch else (' p=%x' % p5) if kind in (1, 14) else '', ' othertype' if other else '', (' v=%d' % p4) if 7 <= kind <= 15 else '') + ((' w=%d' % p5) if kind == 15 else '')
     return Job(name, 'B', 'harness/cpp/qfilter.cpp', 'harness_qf', pdefs={'IR2C_P0': kind, 'IR2C_P1': n, 'IR2C_P2': arch, 'IR2C_P3': other, 'IR2C_P4': p4, 'IR2C_P5': p5},
                unwind=12, family='qfilter/' + KINDS[kind], timeout=(240 if tier == 'quick' else 900), mem_gb=4, **COMMON)
 
@@ -24,7 +24,7 @@ def arch_variants(tier, kind, n):
     """P5 values for an archived job of this kind: the conditionally-archived parameters are job constants"""
     if kind == 0: return [0, 1, 2, 3]
     if kind == 1: return [i | (sel << 2) for i in ((0, 1) if tier == 'quick' else (0, 1, 2, 3)) for sel in (0, 1, 2, 3)] if n else [0, 1 | (1 << 2)]
-    if kind in (2, 3, 4, 5, 6):
+    if kind in (2, 3, 4, 5, 6, 16, 17):
         if tier == 'quick':
             return [num_p5(0, 0, 0, 0), num_p5(1, 1, 1, 0), num_p5(2, 4, 4, 1), num_p5(0, 5, 6, 1), num_p5(3, 6, 7, 0)] if n else [num_p5(0, 2, 0, 1), num_p5(1, 3, 2, 0)]
         return [num_p5(*t) for t in ((0, 0, 0, 0), (1, 1, 1, 0), (2, 4, 4, 1), (0, 5, 6, 1), (3, 6, 7, 0), (0, 2, 2, 1), (1, 3, 3, 1), (2, 0, 5, 0), (3, 1, 0, 1), (0, 4, 1, 0), (1, 5, 4, 1), (2, 2, 6, 0))]
@@ -38,7 +38,7 @@ def slow(kind, n, arch, p4, p5):
     (its children come back through the global factory), and the bad archive with an unrestorable child.  They are sampled in the thorough tier only.
     (Failure paths that hand a status-carrying or NULL Ref on were in this list until Ref::SetStatusAux was modelled, models/message.def.)"""
     if kind == 15: return p4 == 4
-    if arch: return n > 0 or kind >= 7
+    if arch: return n > 0 or 7 <= kind <= 14
     return False
 
 
@@ -58,7 +58,7 @@ def jobs(tier):
         add(0, 0, arch)
         for n in ((0, 1, 2) if tier == 'quick' else (0, 1, 2, 3)):
             add(1, n, arch)
-            for kind in (2, 3, 4, 5, 6): add(kind, n, arch)
+            for kind in (2, 3, 4, 5, 6, 16, 17): add(kind, n, arch)
             for mode in (0, 1, 2):
                 if arch and mode == 2: continue     # a default sub-Message held by a non-counting reference cannot be archived by reference
                 add(14, n, arch, p4=mode)
@@ -75,7 +75,7 @@ def jobs(tier):
 META = {
     'rule': 'one CBMC job per (filter kind, number of items in the tested field, direct / through-the-archive, field type matching or not, child count); inside a job the Message\'s '
             'what-code and every field value, the filter\'s operator byte (all 256 values), mask operator byte (all 256), operand, mask, assumed default, use-default flag, item index, '
-            'what-code ranges of child filters and the threshold are solver variables; the job proves Matches() == a reference evaluator written from QueryFilter.h\'s documentation, '
+            'what-code ranges of child filters and the threshold are solver variables (float/double items and operands range over every bit pattern incl. NaN, -0, inf); the job proves Matches() == a reference evaluator written from QueryFilter.h\'s documentation, '
             'that evaluation leaves the Message (what, field set, type, count, values) and the caller\'s reference untouched, and (archived jobs) that SaveToArchive -> '
             'MuscleQueryFilterFactory::CreateQueryFilter(archive) yields a filter of the same class that IsEqualTo the original and gives the same verdict. Non-trivial iff the witness is reachable.',
     'bounds': 'fields with 0..2 (thorough 0..3) items, item index 0..3, combinators over 1..3 what-code children, one level of sub-Message',
